@@ -790,7 +790,10 @@ fn entry(name: &str, data: &[u8], aux: &[u8]) -> Option<bool> {
 
 /// a syntactically valid SD-JWT VC around the given claims (signature bytes arbitrary)
 fn sd_jwt_vc_token(claims: &str, disclosures: &[&str]) -> String {
-  let mut t = sign_compact(r#"{"alg":"EdDSA","typ":"vc+sd-jwt"}"#, claims, 10);
+  sd_jwt_vc_token_h(r#"{"alg":"EdDSA","typ":"vc+sd-jwt"}"#, claims, disclosures)
+}
+fn sd_jwt_vc_token_h(header: &str, claims: &str, disclosures: &[&str]) -> String {
+  let mut t = sign_compact(header, claims, 10);
   t.push('~');
   for d in disclosures {
     t.push_str(d);
@@ -1127,7 +1130,8 @@ fn seeds() -> Vec<Seeds> {
     Seeds { name: "sdjwtvc", json: false, seeds: vec![sd_jwt_vc_token(&sdvc_claims, &["WyJzYWx0IiwibmFtZSIsIkEiXQ"]), sdvc_claims] },
     Seeds { name: "statuslist", json: false, seeds: vec!["H4sIAAAAAAAAA-3BMQEAAADCoPVPbQwfoAAAAAAAAAAAAAAAAAAAAIC3AYbSVKsAQAAA".into(), "H4sIAAAAAAAAAwMAAAAAAAAAAAA".into()] },
     Seeds { name: "integrity", json: false, seeds: vec!["sha384-dOTZf16X8p34q2/kYyEFm0jh89uTjikhnzjeLeF0FHsEaYKb1A1cv+Lyv4Hk8vHd".into(), "sha256-AAAA-opt-ion".into()] },
-    Seeds { name: "didjwk", json: false, seeds: vec![format!("did:jwk:{}", b64(jwk_ed.as_bytes())), format!("did:jwk:{}", b64(jwk_ec.as_bytes())), format!("did:jwk:{}", b64(jwk_ed_priv.as_bytes()))] },
+    // a did:jwk around a JWK of every key type, public and private
+    Seeds { name: "didjwk", json: false, seeds: vec![format!("did:jwk:{}", b64(jwk_ed.as_bytes())), format!("did:jwk:{}", b64(jwk_ec.as_bytes())), format!("did:jwk:{}", b64(jwk_ed_priv.as_bytes())), format!("did:jwk:{}", b64(jwk_rsa.as_bytes())), format!("did:jwk:{}", b64(jwk_oct.as_bytes())), format!("did:jwk:{}", b64(br#"{"kty":"OKP","crv":"X25519","use":"enc","x":"3p7bfXt9wbTTW2HC7OQ1Nz-DQ8hbeGdNrfx-FG-IK08"}"#)), format!("did:jwk:{}", b64(br#"{"kty":"RSA","n":"AQAB","e":"AQAB"}"#))] },
     Seeds { name: "vcturl", json: false, seeds: vec!["https://bmi.bund.example/credential/pid/1.0".into(), "https://[::1]:8080/a?b#c".into(), "https://user:pw@a.example:444/p/../q".into()] },
   ]
 }
@@ -1274,7 +1278,9 @@ pub fn gen(thorough: bool, seed: u64, out: &mut impl Write) {
           2 => vec!["WyJzYWx0IiwibmFtZSIsIkEiXQ", "WyJzYWx0IiwibmFtZSIsIkEiXQ"],
           _ => vec!["bm90LWEtZGlzY2xvc3VyZQ", ""],
         };
-        let mut t = sd_jwt_vc_token(&claims, &ds);
+        // the header is mutated too (a member dropped, retyped, added)
+        let hdr = if r.chance(1, 3) { mutate_json(&mut r, r#"{"alg":"EdDSA","typ":"vc+sd-jwt","kid":"k"}"#) } else { r#"{"alg":"EdDSA","typ":"vc+sd-jwt"}"#.to_string() };
+        let mut t = sd_jwt_vc_token_h(&hdr, &claims, &ds);
         if r.chance(1, 3) {
           t.push_str(&sign_compact(r#"{"alg":"EdDSA","typ":"kb+jwt"}"#, &mutate_json(&mut r, r#"{"iat":1,"aud":"a","nonce":"n","sd_hash":"x"}"#), 10));
         }
@@ -1296,6 +1302,10 @@ pub fn gen(thorough: bool, seed: u64, out: &mut impl Write) {
         emit(out, "sdjwt", &t);
       }
     }
+  }
+  // SD-JWT VC headers: typ absent / of another JSON type / another value
+  for h in [r#"{"alg":"EdDSA"}"#, r#"{"alg":"EdDSA","typ":1}"#, r#"{"alg":"EdDSA","typ":null}"#, r#"{"alg":"EdDSA","typ":"JWT"}"#, r#"{"typ":"vc+sd-jwt"}"#, r#"{}"#] {
+    emit(out, "sdjwtvc", sd_jwt_vc_token_h(h, r#"{"iss":"https://example.com/issuer","iat":1,"vct":"https://x.example/v"}"#, &[]).as_bytes());
   }
   // issuer / vct URLs of every kind of origin through the SD-JWT VC helpers
   for iss in ["https://example.com/issuer", "https://example.com", "http://a.example:8080/x/y", "did:example:123", "urn:uuid:1", "data:,x", "file:///etc", "blob:https://a.example/x", "mailto:a@b", "https://[::1]/", "ftp://a.example/"] {
